@@ -22,9 +22,9 @@ def ref_stop(term: Any, k: int, elapsed: float, sleep: float) -> bool:
     op = term[0]
     if op == "attempt":
         return k >= term[1]
-    if op == "delay":
+    if op in ("delay", "delay_td"):
         return elapsed >= term[1]
-    if op == "before":
+    if op in ("before", "before_td"):
         return elapsed + sleep >= term[1]
     if op == "or":
         return ref_stop(term[1], k, elapsed, sleep) or ref_stop(term[2], k, elapsed, sleep)
@@ -41,6 +41,14 @@ def build_stop(term: Any) -> Any:
         return stop_after_delay(term[1])
     if op == "before":
         return stop_before_delay(term[1])
+    if op == "delay_td":  # the same budget given as a timedelta (sub-second part included)
+        from datetime import timedelta
+
+        return stop_after_delay(timedelta(seconds=term[1]))
+    if op == "before_td":
+        from datetime import timedelta
+
+        return stop_before_delay(timedelta(seconds=term[1]))
     if op == "or":
         return build_stop(term[1]) | build_stop(term[2])
     if op == "and":
@@ -135,6 +143,27 @@ def cases(tier: str) -> list[dict[str, Any]]:
         cs.append({"stop": ("attempt", 4), "wait": 1, "dur": 0.7, "busy_block": bb, "clause": "attempt_budget"})
         cs.append({"stop": ("delay", 10.0), "wait": 1, "dur": 0.7, "busy_block": bb, "clause": "delay_budget"})
         cs.append({"stop": ("or", ("attempt", 3), ("delay", 10.0)), "wait": 0, "dur": 0.25, "busy_block": bb, "clause": "composed_budget"})
+    # budgets given as timedelta values with a sub-second part
+    for d in (0.5, 2.5):
+        for wait, dur in ((1, 0.7), (1, 0.0), (0.25, 0.25)):
+            cs.append({"stop": ("delay_td", d), "wait": wait, "dur": dur, "clause": "delay_budget"})
+            cs.append({"stop": ("before_td", d), "wait": wait, "dur": dur, "clause": "composed_budget"})
+    if tier != "quick":
+        # systematic product: every atom and every pair under | and & x waits x durations
+        atoms = [("attempt", n) for n in (1, 2, 3, 5)] + [("delay", d) for d in (1.0, 2.5, 4.0)] + [("before", d) for d in (1.0, 2.5, 4.0)] \
+            + [("delay_td", 1.5), ("before_td", 1.5)]
+        terms: list[Any] = list(atoms)
+        for a, b in itertools.product(atoms, repeat=2):
+            if a < b:
+                terms.append(("or", a, b))
+                terms.append(("and", a, b))
+        for t in terms:
+            if t[0] == "and" and not any(x[0] == "attempt" for x in t[1:]) and False:
+                continue
+            for wait, dur in ((0, 0.25), (0.5, 0.0), (1, 0.7), (2, 0.25), (1, 3.0)):
+                # every case must terminate: an and-term of two time budgets always does; so does any term with finite atoms
+                cs.append({"stop": t, "wait": wait, "dur": dur,
+                           "clause": "attempt_budget" if t[0] == "attempt" else ("delay_budget" if t[0] == "delay" else "composed_budget")})
     out = []
     for c in cs:
         for clock in CLOCKS:
@@ -204,8 +233,8 @@ def _work(case: dict[str, Any]) -> tuple[dict[str, Any], Any, list[Any]]:
     return case, o, v
 
 
-RULE = ("grid of retry policies (stop_after_attempt n=0..4(6), stop_after_delay / stop_before_delay d, |,& "
-        "compositions, retryable vs non-retryable error, legacy constructors, custom policy without seed) x "
+RULE = ("grid of retry policies (stop_after_attempt n=0..4(6), stop_after_delay / stop_before_delay d given as numbers or "
+        "timedeltas, |,& compositions - thorough: every pair of 12 atoms under | and & -, retryable vs non-retryable error, legacy constructors, custom policy without seed) x "
         "step durations x wait_fixed delays x clock configurations (wall/monotonic bases differ or equal, "
         "wall-clock adapter) x failure event kind; every case runs the real engine on the virtual clock and is "
         "compared with a reference computed from really elapsed virtual time; a case is non-trivial when the step "
